@@ -350,6 +350,11 @@ psgstrf_MemInit(int_t n, int_t annz, superlumt_options_t *superlumt_options,
 	    xlusup_end = (int_t *)suser_malloc((n) * iword, HEAD);
 	    xusub      = (int_t *)suser_malloc((n+1) * iword, HEAD);
 	    xusub_end  = (int_t *)suser_malloc((n) * iword, HEAD);
+	    if ( !xsup || !xsup_end || !supno || !xlsub || !xlsub_end ||
+		 !xlusup || !xlusup_end || !xusub || !xusub_end ) {
+		/* work[] cannot even hold the pointer arrays */
+		return (psgstrf_memory_use(nzlmax, nzumax, nzlumax) + n);
+	    }
 	}
 
 	lusup = (float *) psgstrf_expand( &nzlumax, LUSUP, 0, 0, Glu );
